@@ -7,12 +7,6 @@ import OG.C07.LemmasInt
 namespace OG.C07
 open OG.Gen.C07
 
-theorem take_app {α : Type} (a b : List α) (k : Nat) (h : a.length = k) : (a ++ b).take k = a := by
-  subst h; simp
-
-theorem drop_app {α : Type} (a b : List α) (k : Nat) (h : a.length = k) : (a ++ b).drop k = b := by
-  subst h; simp
-
 theorem rleLimit_val : rleBlockLimit = 16384 := by rfl
 
 /-- decoding one zero block. -/
